@@ -30,10 +30,10 @@ CFG = {
     "technique": "Coq proof (invariant over the writer's step function, induction over model lists) + vm_compute correspondence check",
     "design_ref": "DESIGN.md §4 C06, §5 entries 7, 8, 20",
     "n_quick": 220, "n_thorough": 2000,
-    "rule": "26 fixed scenes (empty, one triangle, unaligned second mesh, negative-only non-float32 coordinates, shared mesh "
+    "rule": "28 fixed scenes (empty, one triangle, unaligned second mesh, negative-only non-float32 coordinates, shared mesh "
             "pointer x material, materials equal by value / differing only in normal or occlusion texture, instances + TRS + "
-            "lights, JOINTS_0 bytes, refused alphaCutoff, 65535/65536/65537 vertices, NaN and -0, texture transform, LOD placements[:2] / placements / placements[2:] as views of one instance array, Position data of three meshes as prefix / window of one array with a shared index array and the same model value listed twice; six of the earlier scenes again through ONE Writer: WriteGLB + ToGLTF + WriteGLB again / two AddScene calls / AddScene + AddLight; identity node transforms, lights at the origin and at -0; image URIs differing only in case or directory with one texture in two slots), 4 (24) "
-            "big scenes with 65534..70001 vertices run-length encoded, and the corpus scene of fix 31c30a5 (materials differing only in a texture's extension list), random scenes: 1-3 meshes (point/triangle, 0-12 "
+            "lights, JOINTS_0 bytes, refused alphaCutoff, 65535/65536/65537 vertices, NaN and -0, texture transform, LOD placements[:2] / placements / placements[2:] as views of one instance array, Position data of three meshes as prefix / window of one array with a shared index array and the same model value listed twice; six of the earlier scenes again through ONE Writer: WriteGLB + ToGLTF + WriteGLB again / two AddScene calls / AddScene + AddLight; identity node transforms, lights at the origin and at -0; image URIs differing only in case or directory with one texture in two slots; the transformed texture stored after the plain one it is de-duplicated onto; 1024 GPU instances), 4 (24) "
+            "big scenes with 65534..70001 vertices run-length encoded, 6 (26) medium scenes with 255..32768 vertices (powers of two and their neighbours), and the corpus scene of fix 31c30a5 (materials differing only in a texture's extension list), random scenes: 1-3 meshes (point/triangle, 0-12 "
             "vertices, attribute mix of Position/Normal/TexCoord/Color/Joint/Weight/custom, value modes mixed / negative only / "
             "tenths / constant / NaN,-0 / float32 edge values: denormals, below the smallest denormal (rounds to +-0), near MaxFloat32, 2^24+1), 0-4 textures over 6 URIs (two differ only in case / directory) and 0-2 samplers, 0-3 material extensions, 0-4 materials "
             "half of them by-value copies with at most one field changed, 1-6 models with repeated mesh pointers, optional "
